@@ -65,6 +65,8 @@ theorem KeepUp_step {P : Params} {A : Assembler} {script : List Item} {s s' : St
       split at hs
       · split at hs
         · dsimp only at hs
+          split at hs
+          · injection hs with hs; subst hs; intro hf; simp at hf
           split at hs <;> (injection hs with hs; subst hs) <;> intro hf <;>
             first
               | (simp at hf; done)
